@@ -32,7 +32,10 @@ struct Sched {
     bool stuck = false;       // nobody can run although somebody is not done
     bool overrun = false;     // step bound exceeded: inconclusive
     bool freeRun = false;     // hooks become no-ops (after stuck/overrun) so that threads can finish
-    int strategy = 0;         // 0 random walk, 1 PCT
+    int strategy = 0;         // 0 random walk, 1 PCT, 2 systematic (depth-first over the choices, bounded number of preemptions)
+    // systematic mode: the choice taken at every scheduling point (index into the candidates, the thread that ran last first) and the
+    // number of candidates there; dfsPrefix prescribes the first choices of this run, beyond it the first candidate is taken
+    std::vector<int> dfsPrefix; std::vector<std::pair<int, int>> dfsTaken; int preemptBound = 2, preemptions = 0; bool dfsDiverged = false;
     std::vector<int> prio;
     std::vector<long> changePoints;
     int lastRan = -1;
@@ -43,7 +46,12 @@ struct Sched {
         prio.resize(n); for (int i = 0; i < n; i++) prio[i] = i + pctDepth + 1;
         for (int i = n - 1; i > 0; i--) std::swap(prio[i], prio[rng.below((uint64_t)i + 1)]);
         changePoints.clear(); for (int k = 0; k < pctDepth; k++) changePoints.push_back(1 + (long)rng.below((uint64_t)std::max<long>(1, expectedLen)));
-        lastRan = -1;
+        lastRan = -1; dfsTaken.clear(); preemptions = 0; dfsDiverged = false;
+    }
+    // after a systematic run: the prefix of the next unexplored schedule (false when the tree is exhausted)
+    bool next_prefix(std::vector<int>& out) const {
+        for (size_t i = dfsTaken.size(); i-- > 0;) if (dfsTaken[i].first + 1 < dfsTaken[i].second) { out.clear(); for (size_t k = 0; k < i; k++) out.push_back(dfsTaken[k].first); out.push_back(dfsTaken[i].first + 1); return true; }
+        return false;
     }
     bool enabled(int t) {
         switch (state[t]) {
@@ -59,6 +67,16 @@ struct Sched {
         for (int t = 0; t < n; t++) if (enabled(t)) en.push_back(t);
         if (en.empty()) return -1;
         if (strategy == 0) return en[rng.below(en.size())];
+        if (strategy == 2) {
+            bool lastOn = lastRan >= 0 && enabled(lastRan);
+            std::vector<int> ord; if (lastOn) ord.push_back(lastRan); for (int t : en) if (!(lastOn && t == lastRan)) ord.push_back(t);
+            size_t cnt = (lastOn && preemptions >= preemptBound) ? 1 : ord.size();
+            size_t k = dfsTaken.size(); size_t idx = k < dfsPrefix.size() ? (size_t)dfsPrefix[k] : 0;
+            if (idx >= cnt) { dfsDiverged = true; idx = 0; }       // the run did not repeat its prefix: not deterministic, reported
+            if (lastOn && idx != 0) preemptions++;
+            dfsTaken.push_back({(int)idx, (int)cnt});
+            return ord[idx];
+        }
         // PCT: at a change point the thread that ran last drops to the lowest priority
         for (size_t k = 0; k < changePoints.size(); k++) if (changePoints[k] == steps && lastRan >= 0) prio[lastRan] = (int)(changePoints.size() - k);
         int best = en[0]; for (int t : en) if (prio[t] > prio[best]) best = t;
